@@ -451,8 +451,11 @@ fn good_line(rng: &mut Rng) -> String {
         5 => format!("{} {} = echo {}", rng.pick_s(&LOWER_LABELS), rng.pick_s(&LOWER_NAMES), words(rng)),
         6 => rng.pick_s(&["", "# Comment With Caps", "   ", "echo a # Trailing", "\techo tab", "x =", "my_var =", ":l1 out ="]).to_string(),
         7 => rng.pick_s(&LOWER_LABELS).to_string(),
-        // (`pwd` prints the working directory: the executable must run the script where it was started, like the library)
-        _ => rng.pick_s(&["exit 0", "x = is_defined Y", "noop A B", "y = not false", "unset X", "pwd", "d = pwd"]).to_string(),
+        // (`pwd` prints the working directory: the executable must run the script where it was started, like the library;
+        //  the SIZE of the environment: the executable must not add variables of its own; function DEFINITIONS whose
+        //  name — an argument, not a command — is not lower-case: the linter looks at labels, commands and outputs only)
+        _ => rng.pick_s(&["exit 0", "x = is_defined Y", "noop A B", "y = not false", "unset X", "pwd", "d = pwd",
+            "m = env_to_map\nn = map_size ${m}\necho env-size ${n}\nrelease ${m}", "fn Print_Banner\necho Banner\nend", "fn <scope> Mixed_Case A\nend\nfunction UPPER\nend"]).to_string(),
     }
 }
 
@@ -568,6 +571,14 @@ impl Prop for C20Prop {
         let perr = "echo one\necho \"abc\n";
         let mut out = vec![];
         out.push(case("lowertab".to_string(), vec!["unicode-lower-table"], true));
+        // what the script sees of the PROCESS must be what it sees under the library: size of the
+        // environment, a variable the executable might set for itself, working directory
+        let envs = "m = env_to_map\nn = map_size ${m}\necho env-size ${n}\nrelease ${m}\nf = get_env DUCKSCRIPT_SCRIPT_FILE\necho ${f}\npwd\n";
+        out.push(case(cli_req(&[FILE_ARG], Some(envs)), vec!["form:file", "process-view"], true));
+        out.push(case(cli_req(&["-e", envs], None), vec!["form:-e", "process-view"], true));
+        // a file that starts with a byte order mark, a library file that only defines functions with mixed-case names
+        out.push(case(cli_req(&[FILE_ARG], Some("\u{feff}echo hello\n")), vec!["form:file", "bom"], true));
+        out.push(case(format!("lint {}", enc_str("fn <scope> Print_Banner\n    echo x\nend\n")), vec!["op:lint", "definition-name"], true));
         let forms: Vec<(Vec<&str>, &'static str)> = vec![
             (vec![], "form:repl"),
             (vec!["--version"], "form:version"),
@@ -705,7 +716,11 @@ impl Prop for C20Prop {
         } else { text };
         match form {
             0 | 1 | 2 => case(format!("lint {}", enc_str(&text)), vec!["op:lint", ktag, mtag], dom),
-            3 | 4 => case(cli_req(&[FILE_ARG], Some(&text)), vec!["form:file", ktag, mtag], dom),
+            // (one file in six starts with a byte order mark: the text is the script, mark included)
+            3 | 4 => {
+                let text = if rng.chance(1, 6) { format!("\u{feff}{}", text) } else { text };
+                case(cli_req(&[FILE_ARG], Some(&text)), vec!["form:file", ktag, mtag], dom)
+            }
             5 => case(cli_req(&["-e", &text], None), vec!["form:-e", ktag, mtag], dom),
             6 => case(cli_req(&["--eval", &text], None), vec!["form:--eval", ktag, mtag], dom),
             7 => case(cli_req(&["-l", FILE_ARG], Some(&text)), vec!["form:-l", ktag, mtag], dom),
